@@ -18,7 +18,8 @@ CHECKS = {
              "module state); reference order predicates "
              "derived from the step metadata; apply through all five ways of "
              "handing over the list (positional, keyword, deprecated keyword, "
-             "deprecated class). Exhaustive, so this decides the "
+             "deprecated class); after every case the list of available steps "
+             "is still complete and valid. Exhaustive, so this decides the "
              "property for the shipped step set.",
         design_ref="DESIGN.md §2 C14",
         note="Trusts the decorator metadata (steps_required/steps_optional) "
@@ -83,7 +84,8 @@ CHECKS = {
              "all call/edit sequences up to length 4 (5) on long-lived "
              "parameter, abscissa and force objects are compared with fresh copies; "
              "step lists / option dictionaries handed over through the public "
-             "attributes, followed by every pair of later calls.",
+             "attributes, followed by every pair of later calls; ratings with "
+             "an in-memory training set the caller edits in place.",
         design_ref="DESIGN.md §2 C10",
         note="Alias structure is part of the canonical state; an edit "
              "counts only if the twin notices it (non-vacuity enforced, "
@@ -108,7 +110,7 @@ CHECKS = {
              "hash seeds. Further drivers: a curve fitted with the plateau "
              "search (refits changing only its settings), in-memory "
              "training sets incl. one tuple kept by the caller for all "
-             "ratings of a history.",
+             "ratings of a history and one with curves rated -1.",
         design_ref="DESIGN.md §2 C09",
         note="[0,10] demanded only for the averaging tree regressors "
              "without LDA; in-memory (X, y) training sets are exercised via "
@@ -169,7 +171,9 @@ CHECKS = {
              "inputs (valid, missing, syntax error, failing inner import, "
              "raising module, incomplete model) x position of the directory "
              "on sys.path; same-stem files; file copies of all shipped "
-             "models; every ancillary key x {finite, NaN}.",
+             "models; every ancillary key x {finite, NaN}; every sequence "
+             "(<= 4) of register / re-key / deregister-by-handle on one "
+             "module object.",
         design_ref="DESIGN.md §2 C18",
         note="Registry, sys.path and sys.modules are snapshotted and "
              "restored around every transition.",
@@ -249,7 +253,8 @@ CHECKS = {
              "the order-sensitive model on both segments and re-registration "
              "of changed code under one key; for shipped models also "
              "abscissae that are locally unordered at the contact point "
-             "(every sample gets the force of its own abscissa value).",
+             "(every sample gets the force of its own abscissa value) and "
+             "tip radii in the nm range with depths up to the radius.",
         design_ref="DESIGN.md §2 C13",
         note="Bit-exact where the arithmetic is exact (dyadic), ulp-scaled "
              "tolerances elsewhere.",
@@ -266,7 +271,9 @@ CHECKS = {
              "range type x 3 weighting distances x k in {1, 0.5, 0.23} x "
              "all subsets of {E, contact point, baseline} held fixed; every "
              "output relation is re-computed with independent arithmetic "
-             "(C02's literature reference for the fit column).",
+             "(C02's literature reference for the fit column); constraint "
+             "expressions of the caller's on contact point / baseline; a "
+             "three-segment curve (fits of segment 0 and 2).",
         design_ref="DESIGN.md §2 C04",
         note="Weighting distance under k != 1 is read in fitting "
              "coordinates; a fixed contact point may move by 2 ulp for "
@@ -304,7 +311,8 @@ CHECKS = {
              "E k^p), and every optimisation pass must start from k x the "
              "stored initial contact point on k x the measured abscissa "
              "(exact check); cells without initial parameters check that the "
-             "estimated contact point does not depend on k.",
+             "estimated contact point does not depend on k; k changed on a "
+             "fitted curve (keyword, edit, together with a model switch).",
         design_ref="DESIGN.md §2 C11",
         note="Plateau cells on noisy data / strongly mismatched models "
              "get the exact per-pass checks only (shallow scan fits are "
@@ -326,7 +334,8 @@ CHECKS = {
              "fits on an absolute / contact-point-relative sub-interval), "
              "noise-proportional error bounds; per model, a sequence of "
              "fits on different curves in one process (the first with a "
-             "user-fixed baseline).",
+             "user-fixed baseline); tip positions jittered by a few "
+             "sampling steps (locally unordered sampling).",
         design_ref="DESIGN.md §2 C01",
         note="The convergence basin and the noise constants are stated by "
              "the check (regression bounds); the layered model's sample "
@@ -366,7 +375,8 @@ CHECKS = {
              "curves, documented fallback without exception; the "
              "Indentation-level entry point over pipeline histories agrees "
              "with the estimator on the current force; force arrays of "
-             "integer type (whole fN / pN) included.",
+             "integer type (whole fN / pN) and a 40 000-sample approach "
+             "included.",
         design_ref="DESIGN.md §2 C08",
         note="Accuracy fractions are regression bounds per estimator and "
              "baseline class.",
@@ -399,7 +409,9 @@ CHECKS = {
              "unfitted / edited / unsuccessful states and recorded good and "
              "bad curves x 21 feature subsets x 5 common scale factors x "
              "retract perturbation: ranges, order/alignment, curve "
-             "unchanged, bit-exact invariance for dyadic scales.",
+             "unchanged, bit-exact invariance for dyadic scales; all ordered "
+             "pairs of 9 special curves (incl. a saturated detector) whose "
+             "features are computed one after the other in one process.",
         design_ref="DESIGN.md §2 C17",
         note="Scaling is applied to the force and fit columns of the fitted "
              "state, as the property words it.",
@@ -451,7 +463,7 @@ def build():
              "kind_free_text": "closure (fixpoint) search of small dictionary-like stores against a reference model"},
         ],
         "checks": checks,
-        "notes": "All checks run the real nanite code from /repo/src (no build step). Exit 0 = held, 1 = VIOLATION (every reported counterexample was re-executed and reproduced in a fresh interpreter), 2 = harness error (no verdict). known_findings.json lists genuine defects (fixed ones with their fix: commit). seeded/ holds 246 confirmed property-breaking changes with the checks' results (seeded/MATRIX.md); tools/seedtest.py re-runs them.",
+        "notes": "All checks run the real nanite code from /repo/src (no build step). Exit 0 = held, 1 = VIOLATION (every reported counterexample was re-executed and reproduced in a fresh interpreter), 2 = harness error (no verdict). known_findings.json lists genuine defects (fixed ones with their fix: commit). seeded/ holds 267 confirmed property-breaking changes with the checks' results (seeded/MATRIX.md); tools/seedtest.py re-runs them.",
         "not_applicable": [{"property_id": p, "reason": NA_REASON}
                            for p in ALL if p not in CHECKS],
     }
